@@ -252,6 +252,25 @@ class C03(core.PropBase):
                             continue
                         set_at(d, site, text)
                     yield {"kind": "job", "doc": d, "decode": True, "tag": "same-text"}
+        # 2c. crowded scopes: 16-48 job parameters (so 32-100 symbols are visible everywhere) and references that are
+        #     out of scope there — one-component names ('Frame'), names without the prefix, misspellings; whatever the
+        #     size of the scope, each offending reference is named
+        for r in range(10 if thorough else 3):
+            doc = self.rich_job(rng)
+            pds = doc.setdefault("parameterDefinitions", [])
+            have = {p["name"] for p in pds}
+            for k in range(rng.choice([16, 24, 48]) - len(pds)):
+                nm = f"Crowd{k}x{rng.randint(0, 99)}"
+                if nm not in have and len(pds) < 50:
+                    pds.append({"name": nm, "type": rng.choice(["STRING", "INT", "PATH", "FLOAT"])})
+            syms, misses = all_symbols(doc)
+            sites = [st for st in job_sites(doc) if isinstance(get_at(doc, st), str)]
+            loose = ["Frame", "Zqx", "P", "Param", "Task", "Crowd0", rng.choice(pds)["name"], "Session", "RawParam"] + [misspell(rng, rng.choice(syms)).replace(".", "") for _ in range(3)]
+            for sym in loose + misses[:4] + [misspell(rng, rng.choice(syms)) for _ in range(3)]:
+                for site in rng.sample(sites, min(len(sites), 4 if thorough else 2)):
+                    d = G.deep(doc)
+                    place(rng, d, site, sym, rng.choice(["replace", "append", "tight"]))
+                    yield {"kind": "job", "doc": d, "decode": True, "tag": "crowded"}
         # 3. several references at once (errors must not mask one another)
         for i in range(3000 if thorough else 500):
             doc = self.rich_job(rng) if i % 3 else G.gen_job_template(rng)
@@ -280,7 +299,7 @@ class C03(core.PropBase):
     def rule(self, tier):
         return ("valid generated job/environment templates (references in scope by construction); full matrix: every format-string site of rich "
                 "2-3 step templates x every symbol defined anywhere in the document (own and sibling step/environment), near misses and misspellings, "
-                "placed replace/append/tight; '{{' in non-format-string fields; 2-6 simultaneous references; junk documents (type confusion at 1-3 random "
+                "placed replace/append/tight; crowded scopes (16-48 job parameters) x one-component / prefix-less / misspelt names; '{{' in non-format-string fields; 2-6 simultaneous references; junk documents (type confusion at 1-3 random "
                 "positions) through the walker only. distinct = by document; non-trivial = document with at least one placed reference or junk value")
 
     def samples(self, tier, seed):
